@@ -40,4 +40,9 @@ theorem local_sites_discarded_errors :
     every proposal schedule and block height (so the dev-config harness run covers mainnet/robin too). -/
 theorem codec_reads_no_fork_flags : forkFlagReads = 0 := by decide
 
+/-- The conversions are sequential: no function on the codec path starts a goroutine, so a returned list
+    is complete when the call returns (the model's converters are plain structural recursions over the list,
+    proved for every length; a "parallel for speed" rewrite has to come back through this obligation). -/
+theorem codec_starts_no_goroutines : goStatements = 0 := by decide
+
 end Rangers.Props.C09
